@@ -292,17 +292,18 @@ def circuit_layer(scan, max_width, gateset="all", symbolic=False):
         room = max_width - len(scan)
         opts = []
         if qs:
-            opts += ["one", "one", "rot", "measure", "discardq", "bra"]
+            opts += ["measure", "measure", "one", "rot", "discardq", "bra",
+                     "measure"]
+        if bs:
+            opts += ["encode", "cgate", "discardb", "bitsdag", "encode"]
+            if room >= 1:
+                opts.append("copy")
         if adj_q:
-            opts += ["two", "two", "rot2", "controlled"]
+            opts += ["two", "rot2", "controlled"]
         if len(scan) >= 2:
             opts += ["swap", "swap"]
         if room >= 1:
             opts += ["ket", "bits", "mixed"]
-        if bs:
-            opts += ["discardb", "encode", "cgate", "bitsdag"]
-            if room >= 1:
-                opts.append("copy")
         if adj_b:
             opts += ["match"]
         opts += ["scalar"]
@@ -354,9 +355,14 @@ def circuit_layer(scan, max_width, gateset="all", symbolic=False):
                 st.integers(0, 1), min_size=n, max_size=n))}, off
         if kind == "measure":
             off = draw(st.sampled_from(qs))
-            destructive = draw(st.booleans()) or room < 1
-            return {"k": "g", "g": "Measure", "a": [1, destructive, False]},\
-                off
+            n = 2 if off in adj_q and gateset != "tk" and draw(
+                st.integers(0, 3)) == 0 else 1
+            destructive = draw(st.booleans()) or room < n
+            after = scan[off + n:off + 2 * n]
+            override = len(after) == n and all(w[0] == "bit" for w in after)\
+                and draw(st.booleans())
+            return {"k": "g", "g": "Measure",
+                    "a": [n, destructive, override]}, off
         if kind == "discardq":
             return {"k": "g", "g": "Discard", "a": ["qubit"]},\
                 draw(st.sampled_from(qs))
@@ -364,8 +370,13 @@ def circuit_layer(scan, max_width, gateset="all", symbolic=False):
             return {"k": "g", "g": "Discard", "a": ["bit"]},\
                 draw(st.sampled_from(bs))
         if kind == "encode":
-            return {"k": "g", "g": "Encode", "a": [1, True, False]},\
-                draw(st.sampled_from(bs))
+            # constructive=False needs a qubit right before the bit
+            off = draw(st.sampled_from(bs))
+            reset = room >= 1 and draw(st.integers(0, 2)) == 0
+            if off > 0 and scan[off - 1][0] == "qubit" and draw(st.booleans()):
+                return {"k": "g", "g": "Encode", "a": [1, False, reset]},\
+                    off - 1
+            return {"k": "g", "g": "Encode", "a": [1, True, reset]}, off
         if kind == "bitsdag":
             return {"k": "g", "g": "Bits", "a": [draw(st.integers(0, 1))],
                     "dag": True}, draw(st.sampled_from(bs))
